@@ -15,6 +15,8 @@ type ShardResult struct {
 	Counts map[string]int64 `json:"counts"`
 	// max-merged counters
 	Maxes map[string]int64 `json:"maxes"`
+	// min-merged counters
+	Mins map[string]int64 `json:"mins"`
 	// set-merged (distinct counted after union)
 	Sets map[string][]string `json:"sets"`
 	// histogram-merged
@@ -26,7 +28,7 @@ type ShardResult struct {
 }
 
 func newResult() *ShardResult {
-	return &ShardResult{Counts: map[string]int64{}, Maxes: map[string]int64{}, Sets: map[string][]string{}, Hists: map[string]map[string]int64{}, Bounds: map[string]interface{}{}, Exhaustive: true}
+	return &ShardResult{Counts: map[string]int64{}, Maxes: map[string]int64{}, Mins: map[string]int64{}, Sets: map[string][]string{}, Hists: map[string]map[string]int64{}, Bounds: map[string]interface{}{}, Exhaustive: true}
 }
 
 func (r *ShardResult) hist(name, key string, n int64) {
